@@ -121,6 +121,36 @@ def run(facts, cg):
                     finding('R-ERR', b, 'err-logged-only:%s' % how.split('::')[-1], 'the error of the Result produced at %s (%s) is only logged; the function carries on as if it had succeeded' % (loc, how))
             if not whole_moves and not err_payload and not refs and ok_payload:
                 finding('R-ERR', b, 'err-arm-ignored:%s' % how.split('::')[-1], 'the Err case of the Result produced at %s (%s) is matched away without using the error' % (loc, how))
+        # ---- Results nested in Option / Poll (stream items): `while let Some(Ok(x)) = s.next().await` ends the loop on an
+        #      error item and carries on as if the stream had ended
+        for l in range(b.arg_count + 1, len(b.locals)):
+            chain = _wrapper_chain(b, b.lty(l))
+            if not chain or not b.defs().get(l):
+                continue
+            n_results += 1
+            us = uses.get(l, [])
+            loc, how = def_loc(b, l)
+            moved_on, err_payload, ok_payload = [], [], []
+            for (k, node, uloc, pl) in us:
+                rest = _strip_chain(pl['p'], chain)
+                is_discr = k == 'place' and node['rv']['k'] == 'discr'
+                if rest is None:
+                    # a use of the whole value or of an outer level: moved / borrowed on means someone else inspects it
+                    if not is_discr and k != 'proj-write':
+                        moved_on.append(uloc)
+                    continue
+                if not rest:
+                    if not is_discr:
+                        moved_on.append(uloc)
+                    continue
+                if any(p['k'] == 'downcast' and p.get('n') == 'Err' for p in rest):
+                    err_payload.append(uloc)
+                if any(p['k'] == 'downcast' and p.get('n') == 'Ok' for p in rest):
+                    ok_payload.append(uloc)
+            if ok_payload and not err_payload and not moved_on:
+                finding('R-ERR', b, 'err-item-ignored:%s' % how.split('::')[-1],
+                        'the item produced at %s (%s) is only matched as %s(Ok(..)): an error item is matched away unseen and the '
+                        'function carries on as if the stream had ended' % (loc, how, '('.join(chain)))
         # ---- R-EXACTIO: the count returned by a non-exact read/write must be used
         for bi, t in b.calls():
             if 'q' not in t['callee'] or t['callee']['q'] not in COUNTED_IO:
@@ -134,6 +164,33 @@ def run(facts, cg):
     if not roots or n_results < 50:
         findings.append({'rule': 'R-ERR', 'key': 'R-ERR|floor', 'function': '-', 'what': 'entry points not found / too few Result values (cannot decide)'})
     return instances, findings
+
+
+WRAPPERS = {'core::option::Option': 'Some', 'core::task::poll::Poll': 'Ready'}
+
+
+def _wrapper_chain(b, ty, depth=0):
+    """['Some'] for Option<Result<..>>, ['Ready', 'Some'] for Poll<Option<Result<..>>>, None otherwise"""
+    chain = []
+    while depth < 3 and ty.get('adt') in WRAPPERS and ty.get('args'):
+        chain.append(WRAPPERS[ty['adt']])
+        ty = b.ty(ty['args'][0])
+        depth += 1
+    if chain and ty.get('adt') == RESULT:
+        return chain
+    return None
+
+
+def _strip_chain(proj, chain):
+    """projection elements below the wrapped Result if the place goes through every wrapper payload, else None"""
+    p = [x for x in proj if x['k'] != 'deref']
+    i = 0
+    for v in chain:
+        if i + 1 < len(p) + 1 and i < len(p) and p[i]['k'] == 'downcast' and p[i].get('n') == v and i + 1 < len(p) and p[i + 1]['k'] == 'field':
+            i += 2
+        else:
+            return None
+    return p[i:]
 
 
 def _payload_sinks(b, uses, us):
